@@ -944,6 +944,8 @@ def ordered_arguments(
 
   if include_var_keyword:
     for name, value in buildable.__arguments__.items():
+      if not isinstance(name, str):
+        continue  # Positional arguments (integer keys) were handled above.
       param = buildable.__signature_info__.parameters.get(name)
       if param is None or param.kind in (
           param.VAR_KEYWORD,
